@@ -231,7 +231,9 @@ func c06Letters(n int, p *spb.SessionParameters) []Letter {
 	for s := 0; s < n; s++ {
 		ls = append(ls, Letter{Name: fmt.Sprintf("s%d open", s), K: kOpen, S: s})
 		ls = append(ls, Letter{Name: fmt.Sprintf("s%d params", s), K: kParams, S: s, P: p})
-		ls = append(ls, Letter{Name: fmt.Sprintf("s%d election %v", s, ID{Lo: uint64(s + 1)}), K: kElect, S: s, ID: ID{Lo: uint64(s + 1)}})
+		// both sessions can announce both ids: hand-over by a higher AND by an equal id
+		ls = append(ls, Letter{Name: fmt.Sprintf("s%d election (0,1)", s), K: kElect, S: s, ID: ID{Lo: 1}})
+		ls = append(ls, Letter{Name: fmt.Sprintf("s%d election (0,2)", s), K: kElect, S: s, ID: ID{Lo: 2}})
 		for _, e := range []string{"ADD nh1", "ADD nhg1{1}", "ADD v4->1", "REPLACE v4->2", "DELETE v4", "ADD nh2 @\"\""} {
 			ls = append(ls, Letter{Name: fmt.Sprintf("s%d op[%s]", s, e), K: kOps, S: s, Ops: []OpT{{entry(e), stOwn}}})
 		}
@@ -254,10 +256,10 @@ func c06Searches(tier string) []named {
 		ls := c06Letters(2, cfg.p)
 		o := &Options{Letters: ls, Sessions: 2, Checks: Checks{Answers: true, Primary: true}}
 		if tier == "thorough" || cfg.name == "rib-ack" {
-			out = append(out, named{"modify-streams/" + cfg.name + "/from-empty", o, depth})
+			out = append(out, named{"modify-streams/" + cfg.name + "/from-empty", o, depth - 1})
 		}
 		// session 0 is primary and has a held operation; session 1 takes over
-		init := []Letter{ls[0], ls[1], ls[2], ls[5]}
+		init := []Letter{ls[0], ls[1], ls[2], ls[6]} // open, params, election (0,1), op[ADD v4->1] (held)
 		o2 := &Options{Letters: ls, Sessions: 2, Checks: Checks{Answers: true, Primary: true}, Init: init}
 		out = append(out, named{"modify-streams/" + cfg.name + "/from-primary-with-held-operation", o2, depth - 1})
 	}
